@@ -68,13 +68,19 @@ package maven
 //@   loop 1 decreases len(elements)   // termination (C06)
 //@   loop 1 invariant trim: len(elements) <= len(old(elements)) && (forall i int :: 0 <= i && i < len(elements) ==> elements[i] == old(elements)[i]) && (forall i int :: len(elements) <= i && i < len(old(elements)) ==> isNullElement(old(elements)[i]))
 //@   ensures wf: wfElems(result)
-//@   ensures prefix: len(result) <= len(elements) && (forall i int :: 0 <= i && i < len(result) ==> result[i] == elements[i])   [C12] using trim
+//@   ensures prefix: len(result) <= len(elements) && (forall i int :: 0 <= i && i < len(result) ==> result[i] == elements[i])   [C12] using trim,public
 //@   ensures drops-only-zero-like: forall i int :: len(result) <= i && i < len(elements) ==> isNullElement(elements[i])   [C12] using trim
 //@   ensures stops-at-a-real-token: len(result) > 0 ==> !isNullElement(result[len(result) - 1])   [C12] using trim
 
+// round 20: every non-empty token becomes, in order, one element: the number it reads as after alias normalisation, or the
+// normalised qualifier (trailing zero-like elements are trimmed afterwards, so the clause speaks about the positions kept)
+//@ spec mNz(parts []string, n int) int = n <= 0 ? 0 : mNz(parts, n - 1) + (parts[n - 1] != "" ? 1 : 0)
 //@ func parseVersionString
 //@   loop 1 invariant wfElems(elements)
+//@   loop 1 invariant elems: len(elements) == mNz(parts, rangeindex + 1) && (forall j int :: 0 <= j && j <= rangeindex && parts[j] != "" ==> 0 <= mNz(parts, j) && mNz(parts, j) < len(elements) && (strconv.Atoi(normalizeQualifier(parts[j])).1 == nil ? elements[mNz(parts, j)].isNumber && isnum(elements[mNz(parts, j)].value) && intof(elements[mNz(parts, j)].value) == strconv.Atoi(normalizeQualifier(parts[j])).0 : !elements[mNz(parts, j)].isNumber && isstr(elements[mNz(parts, j)].value) && strof(elements[mNz(parts, j)].value) == normalizeQualifier(parts[j])))   [C12]
 //@   ensures wf: wfElems(result)
+//@   ensures token-elements: forall j int :: 0 <= j && j < len(tokenize(version)) && tokenize(version)[j] != "" && mNz(tokenize(version), j) < len(result) ==> (strconv.Atoi(normalizeQualifier(tokenize(version)[j])).1 == nil ? result[mNz(tokenize(version), j)].isNumber && isnum(result[mNz(tokenize(version), j)].value) && intof(result[mNz(tokenize(version), j)].value) == strconv.Atoi(normalizeQualifier(tokenize(version)[j])).0 : !result[mNz(tokenize(version), j)].isNumber && isstr(result[mNz(tokenize(version), j)].value) && strof(result[mNz(tokenize(version), j)].value) == normalizeQualifier(tokenize(version)[j]))   [C12] using elems
+//@   ensures nothing-else: len(result) <= mNz(tokenize(version), len(tokenize(version)))   [C12] using elems
 
 // ---- stored text (C18)
 
@@ -91,3 +97,18 @@ package maven
 // ---- the registered name (the VERS evaluator and the CLI select behaviour by it)
 //@ func (*Ecosystem).Name
 //@   ensures result == "maven"   [C04 C15 C17]
+
+// ---- round 20: the tokenizer cuts exactly at '.', '-' and digit/letter transitions (C12: "tokens split at '.', '-' and
+// digit/letter transitions").  mvSep: the k-th rune is a separator; mvTrans: a digit/letter transition in front of the k-th rune
+// (the code looks at the byte before the rune); mvCur: the token being built after k runes; mvClosed: how many tokens were
+// closed within the first k runes; mvTok: the m-th of them.
+//@ spec mvSep(s string, k int) bool = rune_val(s, k) == '.' || rune_val(s, k) == '-'
+//@ spec mvTrans(s string, k int) bool = rune_pos(s, k) > 0 && ((unicode.IsDigit(s[rune_pos(s, k) - 1]) && unicode.IsLetter(rune_val(s, k))) || (unicode.IsLetter(s[rune_pos(s, k) - 1]) && unicode.IsDigit(rune_val(s, k))))
+//@ spec mvCur(s string, k int) string = k <= 0 ? "" : (mvSep(s, k - 1) ? "" : ((mvTrans(s, k - 1) ? "" : mvCur(s, k - 1)) + runestr(rune_val(s, k - 1))))
+//@ spec mvCuts(s string, k int) bool = (mvSep(s, k) || mvTrans(s, k)) && len(mvCur(s, k)) > 0
+//@ spec mvClosed(s string, k int) int = k <= 0 ? 0 : mvClosed(s, k - 1) + (mvCuts(s, k - 1) ? 1 : 0)
+//@ spec mvTok(s string, k int, m int) string = k <= 0 ? "" : ((mvCuts(s, k - 1) && mvClosed(s, k - 1) == m) ? mvCur(s, k - 1) : mvTok(s, k - 1, m))
+//@ func tokenize
+//@   loop 1 invariant cuts: rangeindex < rune_count(version) && current == mvCur(version, rangeindex + 1) && len(tokens) == mvClosed(version, rangeindex + 1) && (forall m int :: 0 <= m && m < len(tokens) ==> tokens[m] == mvTok(version, rangeindex + 1, m))   [C12]
+//@   ensures closed-tokens: forall m int :: 0 <= m && m < mvClosed(version, rune_count(version)) ==> m < len(result) && result[m] == mvTok(version, rune_count(version), m)   [C12] using cuts
+//@   ensures last-token: len(result) == mvClosed(version, rune_count(version)) + (len(mvCur(version, rune_count(version))) > 0 ? 1 : 0) && (len(mvCur(version, rune_count(version))) > 0 ==> result[len(result) - 1] == mvCur(version, rune_count(version)))   [C12] using cuts
